@@ -9,7 +9,7 @@ import zlib
 from pathlib import Path
 
 from vf import corpus
-from vf.core import SECTOR, rng_for
+from vf.core import SECTOR, as_handle, rng_for
 from vf.monitors import call
 from vf.writers import hds as whds
 from vf.writers import qcow2 as wq
@@ -103,10 +103,15 @@ def plan(tier: str, seed: int) -> list[dict]:
         for j in range(25 if tier == "quick" else 1500):
             cases.append({"k": "rand", "inp": ii, "j": j})
     crafted = ["hv-self", "hv-pair", "hv-chain", "shot-self", "shot-pair", "shot-mid-self", "shot-base-mid", "vmdk-self-parent", "vhdx-self-parent",
-               "qcow2-bomb", "vmdk-bomb", "vmtar-gzbomb", "vmx-nested", "vmx-giant", "keystore-deep", "qcow2-snap-zero-table", "vmdk-desc-giant"]
-    for c in crafted:
+               "qcow2-bomb", "vmdk-bomb", "vmtar-gzbomb", "vmx-nested", "vmx-giant", "keystore-deep", "qcow2-snap-zero-table", "vmdk-desc-giant",
+               "big-unit", "big-unit"]
+    crafted = [(c, j) for j, c in enumerate(crafted)]
+    # every (text grammar, repeated token) combination, in both tiers
+    for idx in range(len(TOKENS) * len(TARGETS)):
+        cases.append({"k": "crafted", "c": "text-repeat", "r": idx, "weight": 2})
+    for c, j in crafted:
         for r in range(4 if tier == "quick" else 40):
-            cases.append({"k": "crafted", "c": c, "r": r, "weight": 4})
+            cases.append({"k": "crafted", "c": c, "r": r + 1000 * j if c in ("big-unit", "text-repeat") else r, "weight": 4})
     return cases
 
 
@@ -159,6 +164,14 @@ def run(case: dict, ctx) -> dict:
     return res
 
 
+# thread CPU seconds allowed per case on top of what the step clock accounts for (generous: tracemalloc, the audit hook
+# and the line monitor multiply the cost of a thousand nested opens); super-linear work in C code is judged by growth
+# between two sizes of the same input instead (text-repeat cases)
+CPU_BASE = 30.0
+CPU_PER_BYTE = 25e-6
+CPU_PER_STEP = 2e-6  # a monitored line event costs about 0.6 us here
+
+
 def _judge(ctx, res, o, label, in_len, units_ok=2 << 20):
     cnt = res["cnt"]
     if o.ok:
@@ -171,6 +184,13 @@ def _judge(ctx, res, o, label, in_len, units_ok=2 << 20):
     if peak > bound:
         res["viol"].append({"what": "traced peak memory exceeds the bound for this input", "mech": "resources.memory",
                             "detail": {"case": label, "peak": peak, "bound": bound, "input_len": in_len}})
+    cpu = ctx.mem.cpu()
+    # work the step clock sees is bounded by the step budget; what is left over is time spent inside C code
+    cpu_bound = CPU_BASE + CPU_PER_BYTE * (in_len + REQ) + CPU_PER_STEP * ctx.steps.steps
+    cnt["cpu_ms_total"] = int(cpu * 1000)
+    if cpu > cpu_bound:
+        res["viol"].append({"what": "thread CPU time exceeds the bound for this input", "mech": "resources.cpu",
+                            "detail": {"case": label, "cpu_seconds": round(cpu, 2), "bound_seconds": round(cpu_bound, 2), "input_len": in_len}})
     for e in ctx.inflate.events:
         unbounded = e["max_length"] in (None, 0)
         if unbounded and e["out"] > units_ok:
@@ -180,6 +200,56 @@ def _judge(ctx, res, o, label, in_len, units_ok=2 << 20):
             res["viol"].append({"what": "inflate produced more than 64 MiB for one allocation unit", "mech": "resources.inflate", "detail": {"case": label, **e}})
             break
     cnt["inflate_calls_seen"] = len(ctx.inflate.events)
+
+
+TOKENS = ["(", ")", "((", "()", '"', '\\"', " ", "\t", "/", ",", "=", "%", "%2", "a=", ":", "#", "list/(", "pair/(", 'x" "', "phrase/", "a/", "(a,"]
+TARGETS = ["keysafe", "keysafe-list", "keysafe-pair", "vmx-key", "vmx-value", "extent-line", "extent-name", "ddb", "keystore"]
+
+
+def _big_unit_image(rng, fmt: str):
+    """-> (SparseFile, reader class, unit bytes): every unit unallocated/absent, a few KiB stored."""
+    MiB = 1 << 20
+    if fmt == "vdi":
+        from dissect.hypervisor.disk.vdi import VDI
+        from vf.writers import vdi as wvdi
+
+        unit = rng.choice([64, 256, 1024]) * MiB
+        sf, _, _ = wvdi.build(rng, block_size=unit, nblocks=4, states=["U"] * 4, tag=1)
+        return sf, VDI, unit
+    if fmt == "vhdx":
+        from dissect.hypervisor.disk.vhdx import VHDX
+        from vf.writers import vhdx as wvhdx
+
+        unit = rng.choice([128, 256]) * MiB
+        sf, _, _ = wvhdx.build(rng, block_size=unit, sector_size=rng.choice([512, 4096]), nblocks=4, states=[0, 0, 0, 0], tag=1, checksums=False)
+        return sf, VHDX, unit
+    if fmt == "vhd":
+        from dissect.hypervisor.disk.vhd import VHD
+        from vf.writers import vhd as wvhd
+
+        unit = rng.choice([64, 256]) * MiB
+        sf, _, _ = wvhd.build_dynamic(rng, block_size=unit, nblocks=4, states=["U"] * 4, tag=1)
+        return sf, VHD, unit
+    if fmt == "hds":
+        from dissect.hypervisor.disk.hdd import HDS
+        from vf.writers import hds as whds
+
+        unit = rng.choice([64, 512]) * MiB
+        sf, _, _ = whds.build_hds(rng, version=2, m_sectors=unit // 512, nclusters=4, states=["U"] * 4, tag=1)
+        return sf, HDS, unit
+    if fmt == "vmdk":
+        from dissect.hypervisor.disk.vmdk import VMDK
+
+        unit = rng.choice([64, 128]) * MiB
+        sf, _, _ = wvmdk.build_hosted(rng, capacity=4 * unit // 512, grain=unit // 512, ngte=512, states=["U"] * 4, tag=1)
+        return sf, VMDK, unit
+    from dissect.hypervisor.disk.qcow2 import QCow2
+
+    unit = 2 * MiB
+    ext = rng.random() < 0.5
+    view = wq.make_view(rng, size=64 * unit, cluster_bits=21, kinds="U" * 64, extl2=ext, tag=1)
+    sf, _, _ = wq.build(rng, cluster_bits=21, size=64 * unit, views=[view], extl2=ext, placement="seq")
+    return sf, QCow2, unit
 
 
 def _crafted(case, ctx, res):
@@ -335,6 +405,77 @@ def _crafted(case, ctx, res):
         in_len = len(text)
         ctx.mem.begin()
         o = call(lambda: KeyStore.from_text(text))
+    elif c == "big-unit":
+        # well-formed, almost empty images with very large allocation units: a 512-byte read must not cost a unit of memory
+        fmt = ["vdi", "vhdx", "vhd", "hds", "vmdk", "qcow2"][case["r"] % 6]
+        sf, cls, unit = _big_unit_image(rng, fmt)
+        in_len = sf.stored_bytes()
+        label = f"crafted:big-unit:{fmt}:{unit >> 20}MiB"
+
+        def f():
+            d = cls(as_handle(sf))
+            out = []
+            for off in (0, unit - 512, unit + 4096, d.size - 512):
+                d.seek(off)
+                out.append(len(d.read(512)))
+            return out
+
+        ctx.mem.begin()
+        o = call(f)
+        res["sets"]["big_unit_formats"] = [f"{fmt}:{unit >> 20}MiB"]
+    elif c == "text-repeat":
+        # one token repeated tens of thousands of times in front of every text grammar (regular expressions in C code
+        # are invisible to the step clock; the CPU-time bound is what decides here)
+        from dissect.hypervisor.descriptor.vmx import VMX
+        from dissect.hypervisor.disk.vmdk import DiskDescriptor
+        from dissect.hypervisor.util.envelope import KeyStore
+
+        tok = TOKENS[(case["r"] // len(TARGETS)) % len(TOKENS)]
+        target = TARGETS[case["r"] % len(TARGETS)]
+
+        def make(total):
+            n = total // len(tok)
+            blob = tok * n
+            if target.startswith("keysafe"):
+                pre = {"keysafe": "", "keysafe-list": "vmware:key/list/", "keysafe-pair": "vmware:key/list/(pair/"}[target]
+                q = (pre + blob).replace('"', "'")
+                text = f'encryption.keySafe = "{q}"\nencryption.data = "AAAA"\n'
+                return text, (lambda: VMX.parse(text).unlock_with_phrase("x"))
+            if target == "vmx-key":
+                text = blob.replace("=", "-").replace("#", "-") + ' = "v"\n'
+                return text, (lambda: len(VMX.parse(text).attr))
+            if target == "vmx-value":
+                text = f'displayName = "{blob}"\nscsi0:0.fileName = "d.vmdk"\n'
+                return text, (lambda: VMX.parse(text).disks())
+            if target == "extent-line":
+                text = "# Disk DescriptorFile\nversion=1\nRW 100 SPARSE " + blob + "\n"
+                return text, (lambda: len(DiskDescriptor.parse(text).extents))
+            if target == "extent-name":
+                text = '# Disk DescriptorFile\nversion=1\nRW 100 SPARSE "' + blob + '" 0 ' + blob[:2000] + "\n"
+                return text, (lambda: len(DiskDescriptor.parse(text).extents))
+            if target == "ddb":
+                text = "# Disk DescriptorFile\nversion=1\nddb." + blob + ' = "' + blob + '"\n'
+                return text, (lambda: len(DiskDescriptor.parse(text).ddb))
+            text = 'mode = "NONE"\n' + blob + ' = "' + blob + '"\n'
+            return text, (lambda: KeyStore.from_text(text))
+
+        # the same text at 1x and 4x the size: four times the input may cost about four times the CPU, not sixteen
+        small, big = 20000, 80000
+        t_small, f_small = make(small)
+        ctx.mem.begin()
+        call(f_small)
+        cpu_small = ctx.mem.cpu()
+        text, fn = make(big)
+        in_len = len(text)
+        label = f"crafted:text-repeat:{target}:{tok!r}"
+        ctx.mem.begin()
+        o = call(fn)
+        cpu_big = ctx.mem.cpu()
+        cnt["growth_ratio_checks"] = 1
+        if cpu_big > 2.0 and cpu_big > 9 * max(cpu_small, 0.05):
+            res["viol"].append({"what": "CPU time grows faster than linearly with the length of a text input", "mech": "resources.cpu",
+                                "detail": {"case": label, "cpu_seconds_20k": round(cpu_small, 3), "cpu_seconds_80k": round(cpu_big, 3)}})
+        res["sets"]["text_repeat_targets"] = [target]
     elif c == "qcow2-snap-zero-table":
         from dissect.hypervisor.disk.qcow2 import QCow2
 
